@@ -199,13 +199,14 @@ def r20_8(chk, P, rule='R20.8'):
         ready = list(F.calls('_make_decode_ready'))
         if not clears or not ready:
             continue
+        reads = [c for c in F.calls('vorbis_synthesis_halfrate_p') if F.ex[c]['c'] and on_handle_info(F, F.ex[c]['c'][0])]
 
         class H(k2.Flags):
             def on_node(self, A, env, e, v):
                 fl = env.get('$flags', frozenset())
                 nd = A.ex[e]
                 if nd['k'] == 'call':
-                    if e in ready and A.final:
+                    if (e in ready or e in reads) and A.final:
                         self.at.setdefault(e, set()).add(fl)
                     if e in clears:
                         fl = fl | {'lost'}
@@ -223,6 +224,14 @@ def r20_8(chk, P, rule='R20.8'):
                    f'on all {len(sets)} path classes the info in use still carries the half-rate request or received it again' if not bad else
                    f'_make_decode_ready is reachable after vorbis_info_clear(vf->vi) (line {F.loc(clears[0])}) without '
                    'vorbis_synthesis_halfrate on the new info: after a link boundary in streaming mode the next link decodes at full rate')
+        for e in sorted(reads, key=lambda x: F.ex[x]['loc']):
+            sets = h.at.get(e, set())
+            bad = [fl for fl in sets if 'lost' in fl]
+            n += 1
+            chk.ob(rule, F.name, f'request-read-before-the-discard#{sorted(reads, key=lambda x: F.ex[x]["loc"]).index(e)}', not bad, F.where(e),
+                   'the request is read from an info that has not been discarded' if not bad else
+                   f'`{F.s(e)}` is reachable after vorbis_info_clear(vf->vi) (line {F.loc(clears[0])}) and before the request was applied '
+                   'again: a cleared info answers 0, so what is handed on to the next link is "full rate" whatever was requested')
         restores = [c for c in F.calls('vorbis_synthesis_halfrate') if F.ex[c]['c'] and on_handle_info(F, F.ex[c]['c'][0])]
         if restores:
             pr = prov.Prov(P, F, lambda F_, n_: None, lambda F_, c_: set())
